@@ -168,6 +168,8 @@ def base_signature(case, violation):
         kind = "interleaved-incomplete"
     elif "First character in input file must be" in msg:
         kind = "first-character"
+    elif "No such file or directory: '/dev/fd/" in msg:
+        kind = "devfd-enoent"
     mixed = False
     try:
         for d in destinations(case):
@@ -184,6 +186,8 @@ def base_signature(case, violation):
         "input_layout": case["input"]["layout"],
         "fasta_comments": bool(case["input"].get("comments")) and case["fmt"] == "fasta",
         "error_kind": kind,
+        "input_via": "devfd" if case["input"].get("devfd") else ("stdin" if case["input"].get("stdin") else "path"),
+        "start_method": case["knobs"].get("start_method"),
     }
 
 
